@@ -4,33 +4,65 @@ open Lean
 namespace HedVerif.Driver.C17
 open HedVerif HedVerif.Driver HedVerif.Remodel
 
+/-- text of a float on the 1/2 grid (`1.0`, `-0.5`, `12.5`) → twice its value -/
+def parseHalf (s : String) : Option Int :=
+  let (neg, body) := match s.toList with
+    | '-' :: r => (true, r)
+    | r => (false, r)
+  match body.span Char.isDigit with
+  | (ds, '.' :: [f]) =>
+    if ds.isEmpty then none else
+    let n : Nat := ds.foldl (fun a c => a * 10 + (c.toNat - '0'.toNat)) 0
+    let h : Option Nat := if f = '0' then some (2 * n) else if f = '5' then some (2 * n + 1) else none
+    h.map fun v => if neg then -(v : Int) else (v : Int)
+  | _ => none
+
 /-- Wire format: integers are JSON numbers; a float is `{"$f": "<Python repr>"}` (Lean's JSON reader normalises
-`1.0` to `1`, and the distinction is observable in `str()`); a literal object never has the key `$f`. -/
-def fltOf? (j : Json) : Option Str :=
+`1.0` to `1`, and the distinction is observable in `str()`); a dictionary is `{"$o": [[key, value], …]}` so that
+its insertion order survives (Lean's JSON objects are sorted). -/
+def fltOf? (j : Json) : Option String :=
   match j with
   | .obj kvs => match kvs.toList with
-    | [("$f", .str r)] => some r.toList
+    | [("$f", .str r)] => some r
     | _ => none
   | _ => none
 
-partial def toJVal (j : Json) : JVal :=
+def ordOf? (j : Json) : Option (Array Json) :=
+  match j with
+  | .obj kvs => match kvs.toList with
+    | [("$o", .arr ps)] => some ps
+    | _ => none
+  | _ => none
+
+partial def toJVal (j : Json) : Except String JVal :=
   match fltOf? j with
-  | some r => .flt r
+  | some r => match parseHalf r with
+    | some h => pure (.flt h)
+    | none => throw s!"float {r} is not on the 1/2 grid"
   | none =>
-    match j with
-    | .null => .null
-    | .bool b => .bool b
-    | .num n => if n.exponent == 0 then .int n.mantissa else .flt n.toString.toList
-    | .str s => .str s.toList
-    | .arr xs => .arr (xs.toList.map toJVal)
-    | .obj kvs => .obj (kvs.toList.map fun (k, v) => (k.toList, toJVal v))
+    match ordOf? j with
+    | some ps => do
+      let kvs ← ps.toList.mapM fun p => match p with
+        | .arr #[.str k, v] => do pure (k.toList, ← toJVal v)
+        | _ => throw "bad $o entry"
+      pure (.obj kvs)
+    | none =>
+      match j with
+      | .null => pure .null
+      | .bool b => pure (.bool b)
+      | .num n => if n.exponent == 0 then pure (.int n.mantissa) else throw "float must be {\"$f\": repr}"
+      | .str s => pure (.str s.toList)
+      | .arr xs => do pure (.arr (← xs.toList.mapM toJVal))
+      | .obj kvs => do pure (.obj (← kvs.toList.mapM fun (k, v) => do pure (k.toList, ← toJVal v)))
 
 def toCell : Json → Except String Cell
   | .null => .ok .nan
   | .str s => .ok (.str s.toList)
   | .num n => if n.exponent == 0 then .ok (.int n.mantissa) else .error "float cell must be {\"$f\": repr}"
   | j => match fltOf? j with
-    | some r => .ok (.flt r)
+    | some r => match parseHalf r with
+      | some h => .ok (.flt h)
+      | none => .error s!"float {r} is not on the 1/2 grid"
     | none => .error "bad cell"
 
 def toTable (j : Json) : Except String Table := do
@@ -55,7 +87,7 @@ def resJson : Except OpErr Table → Json
 def valJson : Val → Json
   | .str s => jstr s
   | .int n => jint n
-  | .flt r => jobj [("$f", jstr r)]
+  | .flt h => jobj [("$f", jstr (fltRepr h))]
   | .nan => Json.null
 
 def strsJson (xs : List Str) : Json := jarr (xs.map jstr)
@@ -70,9 +102,18 @@ def opJson : Op → Json
     jobj [("column_mapping", jobj (m.map fun kv => (String.ofList kv.1, jstr kv.2))), ("ignore_missing", jbool i)]
   | .reorderColumns o i k => jobj [("column_order", strsJson o), ("ignore_missing", jbool i), ("keep_others", jbool k)]
   | .factorColumn c vs ns => jobj ([("column_name", jstr c)] ++ optStrs "factor_values" vs ++ optStrs "factor_names" ns)
-  | .mergeConsecutive c code m i =>
-    jobj ([("column_name", jstr c), ("event_code", valJson code), ("set_durations", jbool false),
+  | .mergeConsecutive c code m sd i =>
+    jobj ([("column_name", jstr c), ("event_code", valJson code), ("set_durations", jbool sd),
            ("ignore_missing", jbool i)] ++ optStrs "match_columns" m)
+  | .remapColumns s d ml i is =>
+    jobj ([("source_columns", strsJson s), ("destination_columns", strsJson d),
+           ("map_list", jarr (ml.map fun r => jarr (r.map valJson))), ("ignore_missing", jbool i)]
+          ++ optStrs "integer_sources" is)
+  | .splitRows a evs rp =>
+    jobj [("anchor_column", jstr a), ("remove_parent_row", jbool rp),
+          ("new_events", jobj (evs.map fun e => (String.ofList e.1,
+            jobj ([("onset_source", jarr (e.2.onsetSrc.map valJson)), ("duration", jarr (e.2.duration.map valJson))]
+                  ++ optStrs "copy_columns" e.2.copy))))]
 
 def errJson (e : Err) : Json := jarr [jnat e.index, Json.str (toString (repr e.kind))]
 
@@ -82,12 +123,12 @@ the tables pushed in this order through one dispatcher, the parameters afterward
 def handle (op : String) (j : Json) : Option (Except String Json) :=
   match op with
   | "c17.validate" => some do
-      let raws := (← getArr j "ops").map toJVal
+      let raws ← (← getArr j "ops").mapM toJVal
       let errs := validateParams raws
       pure <| jobj [("errors", jnat errs.length), ("kinds", jarr (errs.map errJson)),
                     ("modelled", jbool (parseOps raws).isSome)]
   | "c17.run" => some do
-      let raws := (← getArr j "ops").map toJVal
+      let raws ← (← getArr j "ops").mapM toJVal
       let tables ← (← getArr j "tables").mapM toTable
       let old := getBoolD j "old" false
       let errs := validateParams raws
